@@ -201,7 +201,7 @@ def build_obligations(binary):
         o, m = k_ws(binary, fam, bs)
         outs[fam] = o
         k = sym("__find_whitespace_and_structurals", fam)
-        obls.append(Obl(k, "out#whitespace", o["whitespace"] == S.spec_whitespace(bs), [], P1))
+        obls.append(Obl(k, "out#whitespace", o["whitespace"] == S.spec_whitespace(bs), [], P1 + ["C08"]))  # CR/LF/TAB/space: CRLF line ends (C08)
         obls.append(Obl(k, "out#structurals", o["structurals"] == S.spec_structurals(bs), [], P1))
         obls.append(Obl(k, "frame#writes", BoolVal(not only_stack_and(m, ["ws", "st"])), [], P1 + ["C05"]))
     obls.append(Obl("product/whitespace_and_structurals", "equal#outputs", And(outs["avx2"]["whitespace"] == outs["avx512"]["whitespace"], outs["avx2"]["structurals"] == outs["avx512"]["structurals"]), [], ["C06"]))
